@@ -1,5 +1,6 @@
 import Walrus.Maps
 import Walrus.Proofs.Locals
+import Walrus.Proofs.Module
 
 /-!
 # C19 — index maps exposed to extension code agree with the binaries
@@ -108,6 +109,28 @@ theorem emitted_type_index_exact (sorted : List (Nat × Sig)) (hnd : (sorted.map
     assoc (sorted.zipIdx.map (fun p => (p.1.1, p.2))) (sorted[j].1) = some j := by
   have := assoc_zipIdx_key (fun p : Nat × Sig => p.1) sorted 0 0 hnd j hj
   simpa using this
+
+/-- **emit-time map, functions, injective**: two function ids are never reported the same index —
+    imports keep their own (below `nif`), local functions get `nif +` their position; no assumption
+    on the ids is needed -/
+theorem emitted_function_index_injective (nif : Nat) (funcs : List OutFunc) (a b x : Nat)
+    (ha : assoc ((List.range nif).map (fun i => (i, i)) ++ funcs.zipIdx.map (fun p => (p.1.id, nif + p.2))) a = some x)
+    (hb : assoc ((List.range nif).map (fun i => (i, i)) ++ funcs.zipIdx.map (fun p => (p.1.id, nif + p.2))) b = some x) :
+    a = b :=
+  funcMap_injective (fun f : OutFunc => f.id) nif funcs a b x ha hb
+
+/-- **emit-time map, types, injective**: two type ids are never reported the same index -/
+theorem emitted_type_index_injective (sorted : List (Nat × Sig)) (a b x : Nat)
+    (ha : assoc (sorted.zipIdx.map (fun p => (p.1.1, p.2))) a = some x)
+    (hb : assoc (sorted.zipIdx.map (fun p => (p.1.1, p.2))) b = some x) : a = b := by
+  have ha' : assoc ((sorted.zipIdx 0).map (fun p => (p.1.1, 0 + p.2))) a = some x := by simpa using ha
+  have hb' : assoc ((sorted.zipIdx 0).map (fun p => (p.1.1, 0 + p.2))) b = some x := by simpa using hb
+  obtain ⟨j, h1, _, h3⟩ := assoc_zipIdx_base (fun p : Nat × Sig => p.1) 0 sorted 0 a x ha'
+  obtain ⟨j', h1', _, h3'⟩ := assoc_zipIdx_base (fun p : Nat × Sig => p.1) 0 sorted 0 b x hb'
+  have : j = j' := by omega
+  subst this
+  rw [h3] at h3'
+  injection h3'
 
 /-- worked instance: duplicate types, an imported function, two local functions swapped by the size
     sort — both maps as the model computes them -/
